@@ -89,12 +89,15 @@ def ttName (t : TT) : String := t.name
 def showTok (t : Token) : String :=
   s!"{ttName t.ty}:{toHex t.lit}:{t.pos.startLine}:{t.pos.startCol}:{t.pos.endLine}:{t.pos.endCol}"
 
+def showCover (cv : List (List Nat)) : String :=
+  String.intercalate "." (cv.map fun ks => if ks.isEmpty then "-" else String.intercalate "+" (ks.map toString))
+
 def doLex (src : Bytes) : String :=
   match tokenize src with
   | none => "OOF"
   | some r =>
     (if r.panicked then "PANIC " else "TOKS ") ++ String.intercalate "," (r.toks.map showTok) ++
-      (if r.insideCode then " inside=1" else " inside=0")
+      (if r.insideCode then " inside=1" else " inside=0") ++ " cover=" ++ showCover (coverTable src r.toks)
 
 /-! ### histories -/
 
